@@ -15,7 +15,7 @@ SHARD = 800
 FILES = ["anytree/resolver.py", "anytree/walker.py", "anytree/node/nodemixin.py"]
 ASSUMPTIONS = ["names are ASCII when ignorecase is set (str.upper and the model's upper-casing agree on ASCII)",
                "str(getattr(node, pathattr, None)) is computed by Python and shipped per node"]
-NAMES = ["a", "A", "b", "a.b", "a+", "[x", "x/y", "..", ".", "", "a::b", "B", "zz", "a*", "(", "\\", "$", "^a", "n\nl", "None"]
+NAMES = ["a", "A", "b", "a.b", "a+", "[x", "x/y", "..", ".", "", "a::b", "B", "zz", "a*", "(", "\\", "$", "^a", "n\nl", "None", "a:", ":a"]
 SEPS = ["/", ".", "::"]
 ERR = {"RootResolverError": "RootResolverError", "ChildResolverError": "ChildResolverError",
        "ResolverError": "ResolverError", "AttributeError": "AttributeError"}
@@ -44,7 +44,8 @@ def literal(c, o):
     base = L.tup(L.boolean(c["glob"]), L.tree(c["tree"]), nm, L.nats(c["pos"]), L.string(path), L.string(c["sep"]),
                  L.boolean(c["ic"]), L.boolean(c["relax"]), obs_lit(o))
     if "rt" in c and isinstance(o, dict) and "target" in o:
-        rt = "(Some (%s, %s))" % (L.nat(o["target"]), L.lst(["(%s, %s)" % (L.boolean(a), L.string(b)) for a, b in o["comps"]]))
+        rt = "(Some (%s, %s, %s))" % (L.nat(o["target"]), L.boolean(c["rt"]["kind"] == "abs"),
+                                      L.lst(["(%s, %s)" % (L.boolean(a), L.string(b)) for a, b in o["comps"]]))
     else:
         rt = "None"
     return "(%s, %s)" % (base, rt)
@@ -100,6 +101,7 @@ def gen_get_cases(tier, seed, glob, comps_extra, salt):
                     cases.append({"glob": glob, "tree": t, "names": names, "pos": p, "path": text, "sep": sep,
                                   "ic": ic and all(ord(ch) < 128 for v in names.values() for ch in v), "relax": relax,
                                   "attr": rng.choice(["name", "name", "key", "missing"])})
+    gen.sprinkle_adv(cases)
     return cases, rng
 
 
